@@ -92,6 +92,11 @@ fn main() {
                 o
             }
         };
+        let mut out = out;
+        // oracle verdicts recorded where no `Out` was at hand (also those of a case that panicked)
+        for n in comps::take_notes() {
+            out.flag(n);
+        }
         let mut first = true;
         for x in &out.nums {
             if !first {
